@@ -26,7 +26,9 @@ const xsd = "http://www.w3.org/2001/XMLSchema#"
 // merklizer. The oracle uses (oracleLoader, sharedMz), the concurrent phase
 // (sharedLoader, a second merklizer built from the same document).
 type mixEnv struct {
-	loader ld.DocumentLoader
+	loader ld.DocumentLoader // HTTP + IPFS gateway
+	cliLd  ld.DocumentLoader // HTTP + IPFS node client
+	bothLd ld.DocumentLoader // both
 	mz     *merklize.Merklizer
 	mzDoc  []byte
 }
@@ -220,21 +222,44 @@ func opPath(alt bool, parts ...any) op {
 	}}
 }
 
-func opLoad(u string) op {
-	return op{kind: "load", arg: u, run: func(e *mixEnv) string {
-		doc, err := e.loader.LoadDocument(u)
+// selfCheck marks an observation that violates the property by itself (whatever the oracle says).
+const selfCheck = "SELF-CHECK-FAILED:"
+
+// opLoad loads u through one of the shared loaders ("gw", "cli", "both").  The document handed
+// back must carry the URL that was asked for (no redirects in the stub): a DocumentURL that
+// belongs to another name of the same resource means that a shared cached document was modified
+// or handed out under the wrong name.
+func opLoad(which, u string) op {
+	arg := u
+	if which != "gw" {
+		arg = which + ":" + u
+	}
+	return op{kind: "load", arg: arg, run: func(e *mixEnv) string {
+		l := e.loader
+		switch which {
+		case "cli":
+			l = e.cliLd
+		case "both":
+			l = e.bothLd
+		}
+		doc, err := l.LoadDocument(u)
 		if err != nil {
 			return errClass(err)
 		}
 		if doc == nil {
 			return "nil-document"
 		}
+		url := doc.DocumentURL
 		b, err := json.Marshal(doc.Document)
 		if err != nil {
 			return "marshal-error"
 		}
 		sum := sha256.Sum256(b)
-		return "sha256=" + hex.EncodeToString(sum[:]) + ";url=" + doc.DocumentURL + ";ctx=" + doc.ContextURL
+		obs := "sha256=" + hex.EncodeToString(sum[:]) + ";url=" + url + ";ctx=" + doc.ContextURL
+		if url != u {
+			return selfCheck + " LoadDocument(" + u + ") returned a document whose DocumentURL is " + url + "; " + obs
+		}
+		return obs
 	}}
 }
 
@@ -311,11 +336,23 @@ func buildPool(seed int64, sharedDoc testDoc, resolve func(dotted string) (merkl
 
 	// (d) loading through the loader
 	for _, u := range knownURLs {
-		add(opLoad(u))
+		add(opLoad("gw", u))
 	}
-	add(opLoad(urlUnknown))
-	add(opLoad("ftp://example.org/unsupported-scheme"))
-	add(opLoad("ipfs://QmeMevwUeD7o6hjfmdaeFD1q4L84hSDiRjeXZLi1bZK1My"))
+	add(opLoad("gw", urlUnknown))
+	add(opLoad("gw", "ftp://example.org/unsupported-scheme"))
+	add(opLoad("gw", "ipfs://QmeMevwUeD7o6hjfmdaeFD1q4L84hSDiRjeXZLi1bZK1My"))
+	// the same IPFS resources under all their names, through a gateway, a node client, and both
+	for _, d := range ipfsDocs {
+		for _, a := range d.aliases() {
+			add(opLoad("gw", a))
+			add(opLoad("both", a))
+			if strings.HasPrefix(a, "ipfs:") {
+				add(opLoad("cli", a))
+			}
+		}
+	}
+	add(opLoad("cli", "ipfs://QmeMevwUeD7o6hjfmdaeFD1q4L84hSDiRjeXZLi1bZK1My"))
+	add(opLoad("cli", knownURLs[0]))
 
 	byKind := map[string][]int{}
 	for i, o := range pool {
@@ -373,7 +410,7 @@ func runMix(cfg *config, out *output) error {
 	raw := ctxload.New()
 
 	// ---- oracle environment (fresh loader/cache of the same configuration) ----
-	oenv, err := newLoaderEnv(raw, ttl)
+	oenv, err := newLoaderEnv(raw, ttl, cfg.Quiet)
 	if err != nil {
 		return err
 	}
@@ -407,7 +444,7 @@ func runMix(cfg *config, out *output) error {
 
 	// ---- sequential oracle: every op of the pool, one goroutine ----
 	merklize.SetDocumentLoader(oenv.loader) // default-loader ops of the oracle use the oracle's loader
-	oracleEnv := &mixEnv{loader: oenv.loader, mz: sharedMz, mzDoc: []byte(sharedDoc.JSON)}
+	oracleEnv := &mixEnv{loader: oenv.loader, cliLd: oenv.cliLd, bothLd: oenv.bothLd, mz: sharedMz, mzDoc: []byte(sharedDoc.JSON)}
 	want := make([]string, len(pool))
 	t0 := time.Now()
 	var mzDur time.Duration
@@ -419,6 +456,10 @@ func runMix(cfg *config, out *output) error {
 			out.addPanic("oracle: " + pan)
 		}
 		want[i] = obs
+		if strings.HasPrefix(obs, selfCheck) {
+			out.addMismatch(mismatch{Goroutine: -1, Op: i, Kind: "load-wrong-document-url",
+				What: "sequential oracle: " + pool[i].kind + "(" + pool[i].arg + ")", Want: "DocumentURL = requested URL", Got: obs})
+		}
 		if strings.HasPrefix(pool[i].kind, "merklize") {
 			mzDur += time.Since(ts)
 			mzCnt++
@@ -428,6 +469,10 @@ func runMix(cfg *config, out *output) error {
 	// deterministic (warm oracle cache vs cold oracle cache)
 	for i := range pool {
 		obs, _ := safeRun(&pool[i], oracleEnv)
+		if strings.HasPrefix(obs, selfCheck) && obs != want[i] {
+			out.addMismatch(mismatch{Goroutine: -1, Op: i, Kind: "load-wrong-document-url",
+				What: "sequential oracle (warm): " + pool[i].kind + "(" + pool[i].arg + ")", Want: "DocumentURL = requested URL", Got: obs})
+		}
 		if obs != want[i] {
 			out.addMismatch(mismatch{Goroutine: -1, Op: i, Kind: "oracle-nondeterministic",
 				What: pool[i].kind + "(" + pool[i].arg + ")", Want: want[i], Got: obs})
@@ -441,7 +486,7 @@ func runMix(cfg *config, out *output) error {
 	out.Distribution["oracle_http_fetches"] = oenv.stub.okFetches()
 
 	// ---- concurrent phase ----
-	senv, err := newLoaderEnv(raw, ttl)
+	senv, err := newLoaderEnv(raw, ttl, cfg.Quiet)
 	if err != nil {
 		return err
 	}
@@ -454,7 +499,7 @@ func runMix(cfg *config, out *output) error {
 	if err != nil {
 		return fmt.Errorf("shared merklizer (%s): %v", sharedDoc.Name, err)
 	}
-	sharedEnv := &mixEnv{loader: senv.loader, mz: concMz, mzDoc: []byte(sharedDoc.JSON)}
+	sharedEnv := &mixEnv{loader: senv.loader, cliLd: senv.cliLd, bothLd: senv.bothLd, mz: concMz, mzDoc: []byte(sharedDoc.JSON)}
 
 	n, k := cfg.Goroutines, cfg.Ops
 	rngs := make([]*rand.Rand, n)
@@ -467,6 +512,12 @@ func runMix(cfg *config, out *output) error {
 	for _, i := range byKind["proof-resolve"] {
 		if strings.HasPrefix(pool[i].arg, "mz:") {
 			mzOps = append(mzOps, i)
+		}
+	}
+	var ipfsOps []int // loads of IPFS resources (all aliases) through the loader with a gateway
+	for _, i := range byKind["load"] {
+		if strings.HasPrefix(pool[i].arg, "ipfs://") && strings.Contains(pool[i].arg, "QmC20Stress") || strings.HasPrefix(pool[i].arg, gwBase) {
+			ipfsOps = append(ipfsOps, i)
 		}
 	}
 	for r := 0; r < rounds; r++ {
@@ -487,6 +538,11 @@ func runMix(cfg *config, out *output) error {
 					if i == 0 && r == 0 && len(mzOps) > 0 {
 						// everybody starts on the untouched shared merklizer at the same moment
 						idx = mzOps[rng.Intn(len(mzOps))]
+					}
+					if (i == 1 || i == 2) && len(ipfsOps) > 0 {
+						// ... and then loads the same few IPFS resources under their different names
+						// (first cold, then from the warm cache) together with everybody else
+						idx = ipfsOps[rng.Intn(len(ipfsOps))]
 					}
 					ts := time.Now()
 					obs, pan := safeRun(&pool[idx], sharedEnv)
@@ -552,6 +608,16 @@ func runMix(cfg *config, out *output) error {
 	out.Notes = append(out.Notes,
 		"shared merklizer: document "+sharedDoc.Name+", built once with the oracle's loader; oracle proofs use the same merklizer",
 		"embedded document: "+embeddedURL)
+	out.Distribution["ipfs_cats"] = senv.cli.cats
+	// cached documents are shared by pointer: none may differ from the copy taken when it was stored
+	for _, env := range []*loaderEnv{oenv, senv} {
+		for _, eng := range env.engines {
+			for _, m := range eng.mutated() {
+				out.addMismatch(mismatch{Goroutine: -1, Op: -1, Kind: "cached-document-mutated", What: m,
+					Want: "unchanged since Set", Got: "modified"})
+			}
+		}
+	}
 	if e.getErrs != 0 {
 		out.addMismatch(mismatch{Goroutine: -1, Op: -1, Kind: "cache-get-error", What: "cache engine Get returned an error other than ErrCacheMiss",
 			Want: "0", Got: fmt.Sprint(e.getErrs)})
